@@ -59,7 +59,12 @@ fn run_history(cx: &mut Cx, lang: &'static str, ops: &[Op], sample: bool) -> boo
     let mut mutated_after_search = false;
     let mut nontrivial = false;
     let mut last_mut = "";
+    let mut mutated_since_last_search = false;
+    let mut last_query: Option<String> = None;
     for op in ops {
+        if !matches!(op, Op::Search(_)) {
+            mutated_since_last_search = true;
+        }
         shown.push(op.show());
         cx.ctx(format!("C10 lang={} history={:?}", lang, shown));
         match op {
@@ -102,6 +107,11 @@ fn run_history(cx: &mut Cx, lang: &'static str, ops: &[Op], sample: bool) -> boo
                 let fresh = St::build(m.lang, &m.recs, m.limit, m.markers);
                 let exp = fresh.search(q);
                 cx.eval();
+                if mutated_since_last_search && last_query.as_deref().map(|l| l.trim_end() == q.trim_end()).unwrap_or(false) {
+                    cx.count("search repeating the previous query after a mutation");
+                }
+                mutated_since_last_search = false;
+                last_query = Some(q.clone());
                 if mutated_after_search {
                     nontrivial = true;
                     cx.count(&format!("search after {} following an earlier search", last_mut));
@@ -133,7 +143,7 @@ fn run_history(cx: &mut Cx, lang: &'static str, ops: &[Op], sample: bool) -> boo
     true
 }
 
-const EXH_OPS: usize = 8;
+const EXH_OPS: usize = 9;
 
 fn exh_op(k: usize, lang: &str) -> Op {
     let (a, b) = match lang {
@@ -150,11 +160,27 @@ fn exh_op(k: usize, lang: &str) -> Op {
         4 => Op::Limit(3),
         5 => Op::Search(String::new()),
         6 => Op::Search(a.chars().take(2).collect()),
+        7 => Op::Limit(0),
         _ => Op::Markers("<", ">"),
     }
 }
 
-fn random_op(rng: &mut Rng, lang: &str, allow_clear: bool) -> Op {
+fn random_op(rng: &mut Rng, lang: &str, allow_clear: bool, last_q: &mut Option<String>) -> Op {
+    // re-issue the previous query (verbatim or with a trailing separator: same words, same grams)
+    // after whatever happened in between - memoised per-query state must not survive a change
+    if let Some(q) = last_q.clone() {
+        if rng.chance(1, 4) {
+            return Op::Search(if rng.chance(1, 3) { format!("{} ", q) } else { q });
+        }
+    }
+    let op = random_op_inner(rng, lang, allow_clear);
+    if let Op::Search(q) = &op {
+        *last_q = Some(q.clone());
+    }
+    op
+}
+
+fn random_op_inner(rng: &mut Rng, lang: &str, allow_clear: bool) -> Op {
     let words = ["metal", "mailbox", "yellow", "shirt", "t", "wi", "fi", "the", "für", "ёлка", "a", "t-shirt", "straße", "microbiologically-engineered"];
     let pickw = |rng: &mut Rng| -> String { if rng.chance(1, 3) { gen::any_word(rng, lang) } else { rng.pick(&words).to_string() } };
     match rng.below(if allow_clear { 12 } else { 11 }) {
@@ -306,15 +332,33 @@ impl History {
 
     /// Long hostile strings straight into the tokenisers and a one-record store.
     fn c01_long(&self, cx: &mut Cx, lang: &'static str) {
-        let n = cx.rng.range(30, 400);
-        let text: String = (0..n).map(|_| *cx.rng.pick(gen::HOSTILE)).collect();
+        let n = cx.rng.range(30, 600);
+        let text: String = if cx.rng.chance(1, 3) {
+            // many different ordinary words: hundreds of distinct grams shared by title and query
+            let alpha = gen::lower_alphabet(lang);
+            (0..n / 3).map(|_| gen::rand_word(&mut cx.rng, &alpha, 2, 7)).collect::<Vec<_>>().join(" ")
+        } else {
+            (0..n).map(|_| *cx.rng.pick(gen::HOSTILE)).collect()
+        };
         cx.ctx(format!("C01 long lang={} text={:?}", lang, text));
         let st = St::build_sentinel(lang, &[(1, text.clone(), 3)], 10);
         let t: Vec<char> = text.chars().collect();
         for _ in 0..4 {
-            let a = cx.rng.below(t.len());
-            let b = (a + cx.rng.range(1, 80)).min(t.len());
+            let (a, b) = match cx.rng.below(4) {
+                0 => (0, t.len()), // the whole text typed back
+                1 => {
+                    let a = cx.rng.below(t.len());
+                    (a, (a + cx.rng.range(100, 900)).min(t.len()))
+                }
+                _ => {
+                    let a = cx.rng.below(t.len());
+                    (a, (a + cx.rng.range(1, 80)).min(t.len()))
+                }
+            };
             let q = s(&t[a..b]);
+            if b - a > 255 {
+                cx.count("long-text searches with a query over 255 characters");
+            }
             cx.ctx(format!("C01 long lang={} text={:?} q={:?}", lang, text, q));
             let hits = st.search(&q);
             cx.eval();
@@ -507,14 +551,14 @@ impl Prop for History {
                 Stream::new("long", 800, 8000).asan(800),
                 Stream::new("corpus", 64, 1600).asan(64),
             ],
-            Which::NoStale => vec![Stream::new("random", 48000, 480000).miri(6), Stream::new("exhaustive", 448, 448).miri(0)],
+            Which::NoStale => vec![Stream::new("random", 48000, 480000).miri(6), Stream::new("exhaustive", 567, 567).miri(0)],
             Which::Registry => vec![Stream::new("core", 16000, 160000).miri(4), Stream::new("bridge", 4000, 40000).miri(2)],
         }
     }
     fn floors(&self) -> Vec<(&'static str, u64, u64)> {
         match self.0 {
-            Which::NoCrash => vec![("searches", 20000, 200000), ("searches with hits", 5000, 50000), ("joined-record hits (two spans from a one-word query)", 50, 500), ("non-ASCII queries", 2000, 20000), ("limit 0", 200, 2000), ("limit 65536", 200, 2000), ("long-text searches", 500, 5000), ("corpus-store searches", 300, 3000)],
-            Which::NoStale => vec![("search after add following an earlier search", 2000, 20000), ("search after clear following an earlier search", 500, 5000), ("search after limit following an earlier search", 500, 5000), ("empty-query search after a mutation following an earlier search", 1000, 10000), ("exhaustive histories", 20000, 200000)],
+            Which::NoCrash => vec![("searches", 20000, 200000), ("searches with hits", 5000, 50000), ("joined-record hits (two spans from a one-word query)", 50, 500), ("non-ASCII queries", 2000, 20000), ("limit 0", 200, 2000), ("limit 65536", 200, 2000), ("long-text searches", 500, 5000), ("long-text searches with a query over 255 characters", 100, 1000), ("corpus-store searches", 300, 3000)],
+            Which::NoStale => vec![("search after add following an earlier search", 2000, 20000), ("search after clear following an earlier search", 500, 5000), ("search after limit following an earlier search", 500, 5000), ("empty-query search after a mutation following an earlier search", 1000, 10000), ("exhaustive histories", 20000, 200000), ("histories on a crowded store", 2000, 20000), ("search repeating the previous query after a mutation", 2000, 20000)],
             Which::Registry => vec![("observations", 20000, 200000), ("observations with >= 2 live ids holding results", 2000, 20000), ("destroy", 300, 3000), ("searches", 3000, 30000)],
         }
     }
@@ -527,13 +571,28 @@ impl Prop for History {
             (Which::NoStale, "random") => {
                 let allow_clear = cx.rng.chance(2, 3);
                 let n = if cx.tier == Tier::Miri { cx.rng.range(4, 7) } else { cx.rng.range(3, 14) };
-                let ops: Vec<Op> = (0..n).map(|_| random_op(&mut cx.rng, lang, allow_clear)).collect();
+                let mut last_q = None;
+                let mut ops: Vec<Op> = vec![];
+                if cx.tier != Tier::Miri && cx.rng.chance(1, 4) {
+                    // a crowded store first: more records share a gram than the candidate cap of a small limit
+                    let words = ["metal", "mettle", "medal", "mailbox", "me", "meter"];
+                    for _ in 0..cx.rng.range(12, 40) {
+                        ops.push(Op::Add(format!("{} {}", cx.rng.pick(&words), cx.rng.pick(&words)), cx.rng.below(5)));
+                    }
+                    ops.push(Op::Limit(*cx.rng.pick(&[0, 1, 1, 2])));
+                    ops.push(Op::Search(cx.rng.pick(&["me", "metal", "m", "met"]).to_string()));
+                    last_q = match ops.last() { Some(Op::Search(q)) => Some(q.clone()), _ => None };
+                    cx.count("histories on a crowded store");
+                }
+                for _ in 0..n {
+                    ops.push(random_op(&mut cx.rng, lang, allow_clear, &mut last_q));
+                }
                 run_history(cx, lang, &ops, true);
             }
             (Which::NoStale, "exhaustive") => {
                 // case = (language, first two operations); enumerates every continuation up to the bound
                 let l = LANGS[(idx % 7) as usize];
-                let head = (idx / 7) as usize;
+                let head = (idx / 7) as usize; // 0..81
                 let (o1, o2) = (head / EXH_OPS, head % EXH_OPS);
                 let maxlen = if cx.tier == Tier::Thorough { 6 } else { 5 };
                 let mut total = 0u64;
